@@ -348,7 +348,8 @@ def run_property(pid, tier, seed, workdir, t0, a):
         for o in bad:
             kf = match_known(known, r.name, o, cx)
             if kf:
-                kf_lines.append('KNOWN-FINDING: property=%s %s [%s %s]' % (pid, kf['what'], r.name, o['name']))
+                kf_lines.append('KNOWN-FINDING: property=%s %s: %s (witness: %s) [job %s]' % (pid, kf['id'], kf['what'].split('. ')[0], kf.get('witness', '-')[:160], r.name))
+                o['known_finding'] = kf['id']
             else:
                 fresh.append(o)
         if not fresh:
@@ -453,8 +454,10 @@ def evidence(pid, tier, seed, m, main_res, can_res, wall, nviol, canary_bad, und
                 samples.append('%s: %s [%s] @%s:%s' % (r.name, o['name'], o['description'], os.path.basename(o['file']), o['line']))
         for x in r.assumes:
             assumes.add(x[:200])
+        kfo = [o for o in r.obligations if o.get('known_finding')]
         jobs.append(dict(name=r.name, mode=r.job.get('mode', 'dfcc'), function=r.job.get('fn'), clause=r.job.get('clause', ''), status=r.status, reason=r.reason[:300],
-                         obligations=len(r.obligations), discharged=sum(1 for o in r.obligations if o['status'] == 'SUCCESS'),
+                         known_finding_obligations=[dict(name=o['name'], finding=o['known_finding']) for o in kfo],
+                         obligations=len(r.obligations) - len(kfo), discharged=sum(1 for o in r.obligations if o['status'] == 'SUCCESS'),
                          solver=s, solver_seconds=round(r.solver_seconds, 2), replaced_callees=r.job.get('replace', []),
                          bounded=r.job.get('bounded'), cmds=r.cmds[-3:]))
     bounded = [j for j in jobs if j.get('bounded')]
